@@ -355,6 +355,7 @@ struct Substrate {
   std::string err;
   std::vector<TamperEvent> events;
   bool enumerate = false;
+  bool light = false;  // few random plans (many tiny substrates of one family)
   bool tamper_enum = false;
   uint64_t n_enum = 0, n_tamper = 0, n_random = 0;
   uint64_t first = 0;  // first run index
@@ -819,6 +820,7 @@ struct Tier {
   uint64_t random_small;    // seeded multi-site plans per small substrate
   uint64_t random_large;    // ... per large substrate
   int gen_s, gen_m, gen_l;  // seed-dependent generated substrates
+  int byz = 0;              // Byzantine Edgebreaker writer instances
   uint64_t tamper_max_events;
   uint64_t tamper_sample;
   uint64_t corpus_max_len;  // corpus files above this are skipped
@@ -836,6 +838,7 @@ Tier TierConfig(const std::string &tier) {
     t.gen_s = 400;
     t.gen_m = 160;
     t.gen_l = 12;
+    t.byz = 2500;
     t.tamper_max_events = 6000;
     t.tamper_sample = 2000;
     t.corpus_max_len = 1u << 20;
@@ -851,6 +854,7 @@ Tier TierConfig(const std::string &tier) {
     t.gen_s = 2;
     t.gen_m = 1;
     t.gen_l = 0;
+    t.byz = 4;
     t.tamper_max_events = 300;
     t.tamper_sample = 50;
     t.corpus_max_len = 4096;
@@ -866,6 +870,7 @@ Tier TierConfig(const std::string &tier) {
     t.gen_s = 8;
     t.gen_m = 4;
     t.gen_l = 0;
+    t.byz = 120;
     t.tamper_max_events = 1500;
     t.tamper_sample = 400;
     t.corpus_max_len = 16384;
@@ -1051,9 +1056,21 @@ class Batch {
         }
       }
     }
+    // Byzantine Edgebreaker writer instances (byz.cc).
+    for (int i = 0; i < tier_.byz; ++i) {
+      Workload w;
+      w.kind = 0;
+      w.n = 1;
+      w.legacy = 5;
+      w.gseed = (r.Fork(6000 + i).Next() >> 2) | 1;
+      AttDesc pos;
+      w.atts.push_back(pos);
+      ws.push_back(w);
+    }
     for (size_t i = 0; i < ws.size(); ++i) {
       Substrate s;
       s.w = ws[i];
+      s.light = s.w.legacy == 5;
       s.ok = EncodeSubstrate(s.w, nullptr, &s.bytes, &s.events, nullptr, &s.err);
       if (!s.ok) {
         rejected_.push_back(s.w.ToJson().Dump() + ": " + s.err);
@@ -1076,6 +1093,7 @@ class Batch {
         }
       }
       s.n_random = s.enumerate ? tier_.random_small : tier_.random_large;
+      if (s.light) s.n_random = 60;
       s.first = idx;
       idx += s.total();
     }
@@ -1986,6 +2004,43 @@ int ChanCanary(const ChanOptions &opt) {
       if (!ok) all_ok = false;
       arr.push(e);
     }
+  }
+  // Byzantine Edgebreaker writer: its reference instance (a quad) must be a
+  // valid stream for the real decoder - the writer emits the layout correctly.
+  {
+    Workload w;
+    w.kind = 0;
+    w.n = 1;
+    w.legacy = 5;
+    w.gseed = 0;
+    AttDesc pos;
+    w.atts.push_back(pos);
+    std::vector<uint8_t> b;
+    std::string err;
+    Json e = Json::Object();
+    e["canary"] = "byz_writer:reference_quad";
+    e["expected"] = "accepted:2 faces,4 points";
+    std::string got_s = "encode_failed";
+    if (EncodeWorkload(w, &b, &err)) {
+      draco::DecoderBuffer db;
+      db.Init(reinterpret_cast<const char *>(b.data()), b.size());
+      draco::Decoder d;
+      auto m = d.DecodeMeshFromBuffer(&db);
+      if (!m.ok()) {
+        got_s = std::string("rejected:") + m.status().error_msg();
+      } else {
+        std::string det;
+        got_s = "accepted:" + std::to_string(m.value()->num_faces()) + " faces," +
+                std::to_string(m.value()->num_points()) + " points";
+        if (!ValidateGeometry(*m.value(), m.value().get(), true, &det).empty())
+          got_s += ",invalid";
+      }
+    }
+    e["got"] = got_s;
+    const bool ok = got_s == "accepted:2 faces,4 points";
+    e["ok"] = ok;
+    if (!ok) all_ok = false;
+    arr.push(e);
   }
   Json out = Json::Object();
   out["canaries"] = arr;
